@@ -121,6 +121,11 @@ def check(ctx, R):
         _writers(ctx, R, roles)
         _send_primitive(ctx, R, roles, T)
         _construction_sites(ctx, R, roles, T)
+    # "followed by exactly the announced number of payload bytes": each buffer handed to the writer reaches the wire whole (same instances as C15)
+    from .c15 import transport_write_sites, writeall_shape
+    for f, n, c in transport_write_sites(ctx):
+        ok, why, info = writeall_shape(ctx, f, n, c)
+        R.check(ok, "RET", "%s|%s" % (f.qualname, norm_stmt(n.ast)), why, why, f.loc(n.ast))
     R.assume("struct.pack/unpack implement the documented format codes; sum() over a bytes-like object is the byte sum")
     R.undecided("library semantics of `struct` (trusted)")
 
